@@ -75,19 +75,27 @@ def run_all(name, harnesses, features=(), wall=600, jobs=None, mem_gb=12):
 
 def playback(name, harness, features=(), expect_no_panic=False):
     """Concrete playback of a failing harness: Kani writes the counterexample as a unit test into a scratch copy of the
-    harness crate; the test is then executed natively (dev and release). Returns (reproduced?, test source, log)."""
+    harness crate; the tests generated for failed checks are then executed natively (dev profile; `cargo kani playback` of this Kani version does not accept `--release`). Returns (reproduced?, test source, log)."""
     src = crate_dir(name); dst = core.workdir('kani-playback', name)
     shutil.rmtree(dst, ignore_errors=True); shutil.copytree(src, dst, ignore=shutil.ignore_patterns('target'))
     target = core.workdir('kani', name + '-pb')
     feat = ('--features ' + ','.join(features)) if features else ''
     r = core.sh('timeout 900 cargo kani -Z stubbing --harness %s --target-dir %s %s -Z concrete-playback --concrete-playback=inplace' % (harness.split('::')[-1], target, feat), cwd=dst, timeout=1000, env=KANI_ENV)
     code = open(os.path.join(dst, 'src', 'lib.rs')).read()
-    tests = re.findall(r'fn (kani_concrete_playback_\w+)\(\)', code)
+    # Kani writes one test per failed check AND one per satisfied cover; a cover's test passes natively by construction, so the
+    # tests generated for covers are left out (unless nothing else was generated: negative covers / should_panic harnesses)
+    alltests = re.findall(r'(?:///[^\n]*\n\s*)*#\[test\]\s*fn (kani_concrete_playback_\w+)\(\)', code)
+    tests = []
+    for t in alltests:
+        head = code[max(0, code.index('fn ' + t) - 400):code.index('fn ' + t)]
+        doc = head[head.rfind('/// Test generated'):] if '/// Test generated' in head else head
+        if 'Check for `cover`' not in doc: tests.append(t)
+    if not tests: tests = alltests
     if not tests: return None, '', (r.stdout + r.stderr)[-1500:]
     test_src = code[code.index('fn ' + tests[0]) - 40:][:3000]
     logs = []; panicked = False; ran = False
-    for prof in ('', '--release'):
-        p = core.sh('timeout 600 cargo kani playback -Z concrete-playback %s %s -- %s' % (prof, feat, tests[0]), cwd=dst, timeout=700, env=KANI_ENV)
+    for t in tests[:4]:
+        p = core.sh('timeout 600 cargo kani playback -Z concrete-playback %s -- %s' % (feat, t), cwd=dst, timeout=700, env=KANI_ENV)
         o = p.stdout + p.stderr; logs.append(o[-800:])
         if re.search(r'test result: (ok|FAILED)', o): ran = True
         if re.search(r'test result: FAILED|panicked at', o): panicked = True
